@@ -105,7 +105,7 @@ def mk_popen(ps, pid):
 class Cfg:
     def __init__(self, seed=0, slots=("A", "B"), max_objs=2, actions=(), clock=False,
                  queries=("name",), numeric=False, use_iter=True, use_exit=True, max_denies=0, max_faults=0, create_time_event=False, sys_calls=(), btime0=None, oneshot=False, popen=False,
-                 own_pid=None, iterhold=False, comm=None, use_wait=False, mid=0):
+                 own_pid=None, iterhold=False, comm=None, use_wait=False, mid=0, midact=0, lazy_hash=False):
         self.seed = seed
         base = 1000 + (seed % 9) * 13
         self.pid = {"A": base, "B": base + 7, "C": base + 19}
@@ -120,6 +120,8 @@ class Cfg:
         self.popen = popen                # held objects are psutil.Popen instances (over a stub subprocess)
         self.use_wait = use_wait          # event: wait(timeout=0) on a held object (its answer is C15's business; what it leaves behind is ours)
         self.mid = mid                    # is_running() with ONE process-table event landing before its k-th kernel access, k < mid
+        self.midact = midact              # an action during which the process dies before access k1 and the pid is re-used before access k2 > k1
+        self.lazy_hash = lazy_hash        # the first hash() of an object is an event of its own (compared with a twin hashed at birth)
         self.iterhold = iterhold          # event: run process_iter() and hold the object it yields for a slot
         self.comm = comm or {}            # slot -> process name bytes
         if own_pid:
@@ -147,6 +149,7 @@ class Exec:
         self.ouid = []        # incarnation uid each was created for
         self.hashes = []      # first hash taken (None until taken)
         self.ran_false = []   # is_running() has returned False
+        self.twin_hash = []   # hash of a second object built at the same moment and hashed at once (lazy_hash configurations)
         self.viols = []
         self.label = ""
         self.ndeny = 0
@@ -202,6 +205,22 @@ class Exec:
                     for e in (("spawn", "spawnZ") if p is None else (("recycle", "die") if p.zombie else ("recycle", "die", "exit"))):
                         for k_ in range(c.mid):
                             ev.append(["mid", i, k_, e, s])
+        if c.lazy_hash:
+            for i, o in enumerate(self.objs):
+                if o._hash is None:
+                    ev.append(["hash", i])
+        if c.midact:
+            for i, o in enumerate(self.objs):
+                p = w.procs.get(o.pid)
+                if p is None or p.zombie or p.uid != self.ouid[i]:
+                    continue
+                s_ = [s for s in c.slots if c.pid[s] == o.pid]
+                if not s_:
+                    continue
+                for a in c.actions:
+                    for k1 in range(c.midact):
+                        for k2 in range(k1 + 1, c.midact + 1):
+                            ev.append(["midact", i, a, k1, k2, s_[0]])
         if c.use_wait:
             for i, o in enumerate(self.objs):
                 if o._exitcode is self.psutil._SENTINEL:
@@ -290,6 +309,12 @@ class Exec:
                 self.ouid.append(owner)
                 self.hashes.append(None)
                 self.ran_false.append(False)
+                th = None
+                if c.lazy_hash and not any(getattr(p_, "fail_once", None) for p_ in w.procs.values()):
+                    t2 = outcome(mk_popen if c.popen else ctor, *((ps, pid) if c.popen else (pid,)))
+                    if t2[0] == "ok":
+                        th = outcome(hash, t2[1])
+                self.twin_hash.append(th)
                 lab = "new:ok"
             else:
                 lab = "new:" + out[1]
@@ -353,6 +378,57 @@ class Exec:
                           "table before the call and is %s after it" % (out, e, k_, "still" if exp0 else "not", "still" if exp1 else "not"))
             if out[0] == "ok" and out[1] is False:
                 self.ran_false[i] = True
+        elif k == "hash":
+            i = ev[1]
+            h = outcome(hash, self.objs[i])
+            lab = "hash:%s" % h[0]
+            th = self.twin_hash[i] if i < len(self.twin_hash) else None
+            if h[0] != "ok":
+                self.viol("hash-raised", repr(h))
+            elif th is not None and th[0] == "ok" and th[1] != h[1]:
+                self.viol("hash-depends-on-calls-made-before-the-first-hash()",
+                          "object %d (ident %r): its first hash() differs from the hash of a second object built at the same moment "
+                          "and hashed at once" % (i, self.objs[i]._ident))
+        elif k == "midact":
+            i, a, k1, k2, s_ = ev[1:]
+            o = self.objs[i]
+            pid = o.pid
+            seen, between = [], []
+
+            cnt = [0]
+
+            def hook(world, kind, subj, pid_):
+                n = cnt[0]
+                cnt[0] += 1
+                if n == k1 and pid in world.procs:
+                    world.vanish(pid)
+                    seen.append("died")
+                if "died" in seen and "respawned" not in seen:
+                    if n >= k2:
+                        world.tick(1)
+                        world.spawn(pid, ppid=1, comm=c.comm.get(s_, b"p" + s_.encode()))
+                        seen.append("respawned")
+                        world.hook = None
+                    elif pid_ == pid:
+                        between.append(kind)      # psutil looked at the pid while nobody owned it
+            w.hook = hook
+            n_eff = len(w.effects)
+            try:
+                out = outcome(do_action, ps, o, a)
+            finally:
+                w.hook = None
+            eff = w.effects[n_eff:]
+            lab = "midact:%s:%s:%s:%s" % (a, "died" in seen, "respawned" in seen, "ok" if out[0] == "ok" else out[1])
+            n0 = len(w.effects)       # (judged here, not by the generic rule below)
+            for e in eff:
+                if e[3] != self.ouid[i] and not (e[0] == "kill" and tuple(e[2]) == (0,)):
+                    if between:
+                        self.viol("mid-call:delivered-to-new-owner-after-seeing-the-pid-free",
+                                  "%s(): the process died before kernel access %d of the call, psutil then made %r on the ownerless pid, "
+                                  "the pid was re-used before access %d, and the call went on to deliver %r to the new owner"
+                                  % (a, k1, between, k2, e))
+            if out[0] == "exc" and out[1] not in ("NoSuchProcess", "ZombieProcess", "AccessDenied") and not (a == "sig65" and out[1] in ("OSError", "ValueError")):
+                self.viol("mid-call:action-raised:%s" % out[1], "%s() raised %r (process died before access %d, pid re-used before access %d)" % (a, out, k1, k2))
         elif k == "wait":
             out = outcome(self.objs[ev[1]].wait, 0)
             lab = "wait:%s" % ("ok" if out[0] == "ok" else out[1])
@@ -386,6 +462,7 @@ class Exec:
                     self.ouid.append(o._vf_uid)
                     self.hashes.append(None)
                     self.ran_false.append(False)
+                    self.twin_hash.append(None)
         elif k == "boot_time":
             out = outcome(ps.boot_time)
             if out != ("ok", float(w.btime)):
@@ -460,8 +537,11 @@ class Exec:
         objs = self.objs
         m = []
         for i in range(len(objs)):
-            h = outcome(hash, objs[i])
-            m.append(("h", i, h[1] if h[0] == "ok" else h[1]))
+            if self.cfg.lazy_hash and objs[i]._hash is None:
+                pass          # not hashed yet: the first hash() is an event of its own
+            else:
+                h = outcome(hash, objs[i])
+                m.append(("h", i, h[1] if h[0] == "ok" else h[1]))
             for j in range(i + 1, len(objs)):
                 m.append((i, j, objs[i] == objs[j], objs[i] != objs[j]))
         return m
@@ -498,6 +578,9 @@ class Exec:
                                  objs[i]._ident, objs[j]._ident))
                 if same and self.hashes[i] != self.hashes[j]:
                     self.viol("hash-differs-for-equal", "objects %d,%d same process, different hash" % (i, j))
+                if not same and objs[i].pid == objs[j].pid and self.hashes[i] is not None and self.hashes[i] == self.hashes[j]:
+                    self.viol("hash-alike-for-different-processes", "objects %d,%d (pid %d, incarnations %r/%r) are unequal but hash alike: idents %r %r"
+                              % (i, j, objs[i].pid, self.ouid[i], self.ouid[j], objs[i]._ident, objs[j]._ident))
 
     # -------------------------------------------------------------- canon
     def canon(self):
